@@ -205,8 +205,81 @@ AddMeta(name, ok, id) ==
   /\ Registered("addmeta", [name |-> name], "meta", Desc("meta", name, PtrSize, 0), BadName(name), ok, id)
 
 ---------------------------------------------------------------------------
+(* A registration that is denied memory (arg.fail = k: the k-th allocation  *)
+(* the call asks for is refused by the environment).  Such a call may       *)
+(* answer "refused" whatever the request and the fill; then the registry is *)
+(* exactly as before.  (When the call succeeds in spite of the denial the   *)
+(* ordinary registration action judges it.)  Design: the chunk walk of      *)
+(* mpt_type_add / mpt_type_metatype_add may already have appended a new,    *)
+(* still empty chunk when memory runs out; nothing else is touched.         *)
+Refusal == [ret |-> "refused", val |-> <<>>, name |-> "", size |-> 0]
+StarvedObs(a, arg) ==
+  /\ reg' = reg
+  /\ obs' = [a |-> a, arg |-> arg, legal |-> TRUE, exp |-> Refusal]
+  /\ des' = Refusal
+HalfWay(chunks, base, cap) ==
+  IF Len(chunks[Len(chunks)]) = Chunk /\ base + Len(chunks) * Chunk <= base + cap - 1
+  THEN {chunks, Append(chunks, <<>>)} ELSE {chunks}
+OomBasic(size, k) ==
+  /\ UNCHANGED <<ifs, dyn, metaC, genC>>
+  /\ StarvedObs("addbasic", [size |-> size, fail |-> k])
+OomGeneric(size, managed, k, half) ==
+  /\ genC' = half /\ UNCHANGED <<ifs, dyn, metaC>>
+  /\ StarvedObs("addgeneric", [size |-> size, managed |-> managed, fail |-> k])
+OomIface(name, k) ==
+  /\ UNCHANGED <<ifs, dyn, metaC, genC>>
+  /\ StarvedObs("addiface", [name |-> name, fail |-> k])
+OomMeta(name, k, half) ==
+  /\ metaC' = half /\ UNCHANGED <<ifs, dyn, genC>>
+  /\ StarvedObs("addmeta", [name |-> name, fail |-> k])
+
+---------------------------------------------------------------------------
 (* lookups *)
 Keep == UNCHANGED <<reg, ifs, dyn, metaC, genC>>
+
+---------------------------------------------------------------------------
+(* Transport format code face of the built-in scalars (message.h,          *)
+(* msgvalfmt.c): code byte = byte order bit (128) + class bits (unsigned   *)
+(* 32, float 64, signed integer 96) + (element size - 1).  nat = the byte  *)
+(* order bit of the machine.  The table is derived from the size table:    *)
+(* the code of scalar t carries the size of the C type t stands for, and   *)
+(* codes and scalars are inverse to each other.  -1 = refused.             *)
+FmtClass(t) == CASE t \in {98, 110, 105, 120}  -> 96     \* b n i x : int8_t .. int64_t
+                 [] t \in {121, 113, 117, 116} -> 32     \* y q u t : uint8_t .. uint64_t
+                 [] t \in {102, 100, 101}      -> 64     \* f d e   : float, double, long double
+                 [] OTHER -> 0
+FmtScalars == {t \in {98, 110, 105, 120, 121, 113, 117, 116, 102, 100, 101} :
+                 FixedSize(t) # 0 /\ FixedSize(t) <= 32}
+\* Tier 1: the table and its inverse
+FmtCode1(t, nat) == IF t \in FmtScalars THEN nat + FmtClass(t) + FixedSize(t) - 1 ELSE -1
+FmtType1(c, nat) == LET hit == {t \in FmtScalars : FmtCode1(t, nat) = c} IN
+                    IF hit = {} THEN -1 ELSE CHOOSE t \in hit : TRUE
+\* Tier 2: mpt_msgvalfmt_typeid takes the byte apart (order, class, size) and
+\* looks for the native type of that class and size (mpt_type_int/uint, float switch)
+FmtType2(c, nat) ==
+  LET order == (c \div 128) * 128
+      cls   == ((c \div 32) % 4) * 32
+      size  == (c % 32) + 1
+      cand  == {t \in FmtScalars : FmtClass(t) = cls /\ FixedSize(t) = size}
+  IN IF order # nat \/ cls = 0 \/ cand = {} THEN -1 ELSE CHOOSE t \in cand : TRUE
+FmtSize(c) == IF c < 0 THEN 0 ELSE (c % 32) + 1        \* element size a code carries
+
+\* all 256 code bytes and the codes of the listed type ids in one call.  The
+\* statement speaks about the built-in scalars: entries of other ids are nominal
+\* (-1) and not compared by trace validation.
+FmtSweep(types, nat) ==
+  /\ Keep
+  /\ obs' = [a |-> "fmtsweep", arg |-> [types |-> types, nat |-> nat], legal |-> TRUE,
+             exp |-> [nat   |-> nat,
+                      ids   |-> [c \in 1..256 |-> FmtType1(c - 1, nat)],
+                      codes |-> [k \in 1..Len(types) |-> FmtCode1(types[k], nat)],
+                      sizes |-> [k \in 1..Len(types) |->
+                                   IF types[k] \in FmtScalars THEN ById1(types[k]).size ELSE 0]]]
+  /\ des' = [nat   |-> nat,
+             ids   |-> [c \in 1..256 |-> FmtType2(c - 1, nat)],
+             codes |-> [k \in 1..Len(types) |-> FmtCode1(types[k], nat)],
+             sizes |-> [k \in 1..Len(types) |-> FmtSize(FmtCode1(types[k], nat))]]
+FmtScalarSeq == SetToSortSeq(FmtScalars, LAMBDA x, y : x < y)
 
 ById(id) ==
   /\ Keep
@@ -264,6 +337,13 @@ Next ==
   \/ \E n \in Names \cup {"log", "loggerx", "abcdx"}, len \in {-1, 0, 3, 4, 6, 9} : ByName(n, len)
   \/ \E n \in Names \cup {"log", "out"}, sep \in {0, 1} : AliasId(n, 1, sep, "sym")
   \/ Scan(IfBase, MetaBase + MetaCap - 1) \/ Scan(GenBase, GenBase + GenCap - 1)
+  \* memory denied to a registration
+  \/ \E sz \in Sizes : OomBasic(sz, 1)
+  \/ \E sz \in Sizes, m \in {0, 1}, h \in HalfWay(genC, GenBase, GenCap) : OomGeneric(sz, m, 1, h)
+  \/ \E n \in Names : OomIface(n, 1)
+  \/ \E n \in Names, h \in HalfWay(metaC, MetaBase, MetaCap) : OomMeta(n, 1, h)
+  \* the format code face does not depend on the registrations: explored before the first one
+  \/ (reg = BuiltinReg /\ \E nat \in {0, 128} : FmtSweep(FmtScalarSeq, nat))
 
 Spec == Init /\ [][Next]_vars
 
@@ -291,6 +371,22 @@ InRange == \A id \in DOMAIN reg :
 NameInverse ==
   /\ \A id \in DOMAIN reg : reg[id].name # "" => ByName1(reg[id].name, -1) = <<id>>
   /\ \A i, j \in DOMAIN reg : (i # j /\ reg[i].name # "") => reg[i].name # reg[j].name
+
+\* format codes and built-in scalars are inverse to each other, both ways, over all
+\* 256 code bytes; a code carries the size of its scalar; the bit-wise reading of
+\* msgvalfmt.c agrees.  Independent of the registrations (evaluated before the first).
+FmtFace ==
+  reg = BuiltinReg =>
+    \A nat \in {0, 128} :
+      /\ \A t \in FmtScalars :
+           /\ FmtCode1(t, nat) \in 0..255
+           /\ FmtType1(FmtCode1(t, nat), nat) = t
+           /\ FmtSize(FmtCode1(t, nat)) = FixedSize(t)
+           /\ ((FmtCode1(t, nat) \div 32) % 4) * 32 = FmtClass(t)
+      /\ \A c \in 0..255 :
+           /\ FmtType1(c, nat) = FmtType2(c, nat)
+           /\ FmtType1(c, nat) # -1 => FmtCode1(FmtType1(c, nat), nat) = c
+           /\ FmtType1(c, nat) = -1 \/ FmtType1(c, nat) \in FmtScalars
 
 \* action properties (every transition)
 Legal        == [][obs'.legal]_vars
